@@ -139,8 +139,43 @@ class Grid3Scales(Grid):
             self.smoothing,
             wallCenter,
         )
+        # Keep the base-class scale in sync, as in the constructor
+        self.positionFalloff = wallThickness
 
         self._cacheCoordinates()
+
+    def compactify(
+            self,
+            z: np.ndarray, # pylint: disable=invalid-name
+            pz: np.ndarray, # pylint: disable=invalid-name
+            pp: np.ndarray, # pylint: disable=invalid-name
+            ) -> tuple[np.ndarray, ...]:
+        r"""
+        Inverse of :py:meth:`decompactify`. The three-scale position map has no
+        closed-form inverse; since it is strictly increasing in :math:`\chi`, the
+        compact coordinate is found by bisection followed by Newton steps.
+        The momentum maps are those of the base class.
+        """
+        _, pzCompact, ppCompact = super().compactify(z, pz, pp)
+        zArr = np.asarray(z, dtype=float)
+        low = -np.ones_like(zArr)
+        high = np.ones_like(zArr)
+        zero = np.zeros_like(zArr)
+        for _ in range(60):
+            mid = 0.5 * (low + high)
+            below = self.decompactify(mid, zero, zero)[0] < zArr
+            low = np.where(below, mid, low)
+            high = np.where(below, high, mid)
+        zCompact = 0.5 * (low + high)
+        for _ in range(2):
+            # Newton polish, kept inside the bisection bracket
+            with np.errstate(invalid="ignore", divide="ignore"):
+                step = (
+                    self.decompactify(zCompact, zero, zero)[0] - zArr
+                ) / self.compactificationDerivatives(zCompact, zero, zero)[0]
+            step = np.where(np.isfinite(step), step, 0.0)
+            zCompact = np.clip(zCompact - step, low, high)
+        return zCompact, pzCompact, ppCompact
 
     def _updateParameters(
         self,
